@@ -284,6 +284,16 @@ func genC07(seed int64, thorough bool, target string) []*c07Case {
 		two("same-id-twice", func(k int) string { return fmt.Sprintf("h%d", k) }, `{"q":1}`)
 		two("second-as-target", func(int) string { return target }, `{"q":1}`)
 		two("second-empty-id", func(int) string { return "" }, `{"q":1}`)
+		// a session announcing the id of a well-behaved node that is connected to the target right now: it is
+		// refused, and the refusal must leave the genuine session (and the routes through it) alone
+		two("second-as-connected-peer-w", func(int) string { return "w" }, `{"q":1}`)
+		for _, peer := range []string{"w", "v"} {
+			hs := func(seq uint64) []byte {
+				return wire.EncodeRoute(&wire.Route{NodeID: peer, UpdateID: uid(), UpdateEpoch: 6, UpdateSequence: seq, Connections: map[string]float64{target: 1}, ForwardingNode: peer})
+			}
+			add("handshake-as-connected-peer:"+peer, "pre", true, hs(1))
+			add("handshake-as-connected-peer:"+peer+":x3", "pre", true, hs(1), hs(2), hs(3))
+		}
 	}
 	// 6. data packets: header corruptions, reserved services with garbage
 	dsem := func(label string, flag bool, msgs ...[]byte) { add("data:"+label, "post", flag, msgs...) }
